@@ -131,13 +131,18 @@ class SolutionTracks(Tracks):
             ndim=tracks.ndim,
             features=tracks.features,
         )
-        if force_recompute:
-            soln_tracks.enable_features(
-                [
-                    soln_tracks.features.tracklet_key,  # type: ignore[list-item]
-                    soln_tracks.features.lineage_key,  # type: ignore[list-item]
-                ]
-            )
+        if tracklet_key is not None:
+            # The id features are managed by the TrackAnnotator from now on: activate
+            # them (existing ids are trusted unless a node lacks one)
+            id_keys = [
+                key
+                for key in (
+                    soln_tracks.features.tracklet_key,
+                    soln_tracks.features.lineage_key,
+                )
+                if key is not None
+            ]
+            soln_tracks.enable_features(id_keys, recompute=force_recompute)
         return soln_tracks
 
     @property
